@@ -405,8 +405,9 @@ ExtraNext == TrCxhNew \/ TrCxhAssign \/ TrCxhReset \/ TrCxhAbsorb \/ TrCxhSqueez
 (* of ALL live variables must equal the abstract values.                   *)
 BaVal(id) == objs[id].v
 BaSet(id, s) == Put(id, [kind |-> "ba", v |-> s])
-BaAll(o) == {<<id, Len(o[id].v), IF Len(o[id].v) = 0 THEN 1 ELSE 0, o[id].v>> : id \in {i \in DOMAIN o : o[i].kind = "ba"}}
-BaObs(ev) == {<<ev.vars[i].id, ev.vars[i].size, ev.vars[i].empty, ev.vars[i].data>> : i \in DOMAIN ev.vars}
+\* last component: the container invariant size() <= capacity() of every live variable
+BaAll(o) == {<<id, Len(o[id].v), IF Len(o[id].v) = 0 THEN 1 ELSE 0, o[id].v, 1>> : id \in {i \in DOMAIN o : o[i].kind = "ba"}}
+BaObs(ev) == {<<ev.vars[i].id, ev.vars[i].size, ev.vars[i].empty, ev.vars[i].data, ev.vars[i].capok>> : i \in DOMAIN ev.vars}
 BaStep(o, e, ob) == Step(o, <<BaAll(o), e>>, <<BaObs(T[l]), ob>>)
 
 TrBaNew == IsEv("ba.new") /\ LET ev == T[l]
